@@ -149,10 +149,22 @@ pub fn check_c23(out: &NetOutcome) {
             };
             // "At most once within its de-duplication window": the window (1024 entries, sent and
             // received operations alike) cannot have forgotten the first copy while fewer than
-            // 1024 messages were sent since. (Bulk runs send more than that on one session.)
+            // 1023 other operations went over this connection since (bulk runs move more).
             if let Some(first) = sent_idx.get(&h) {
-                if k - first < 1024 {
-                    violation("sent-twice-on-one-session", "TopicLogSync", format!("session {} (peer {} -> {}) sent {} twice ({} messages apart)", s.session_id, s.peer, s.remote, name(&h), k - first));
+                let (t0, t1) = (link.sent_seq[*first], link.sent_seq[k]);
+                let received_between = {
+                    let back = out.sessions[pair].link_out.borrow();
+                    back.transcript
+                        .iter()
+                        .enumerate()
+                        .filter(|(j, m)| matches!(m.to_wire(), Wire::Op { .. } | Wire::Live { .. }) && back.delivered_seq.get(*j).map(|d| *d > t0 && *d < t1).unwrap_or(false))
+                        .count()
+                };
+                let between = (k - first - 1) + received_between;
+                if between < 1023 {
+                    violation("sent-twice-on-one-session", "TopicLogSync", format!("session {} (peer {} -> {}) sent {} twice with only {} other operations sent or received in between", s.session_id, s.peer, s.remote, name(&h), between));
+                } else {
+                    ctx::probe("resent_after_dedup_window_rolled_over");
                 }
             }
             sent_at.insert(h, link.sent_seq[k]);
